@@ -454,6 +454,62 @@ Proof.
   - rewrite E. exact Hnz.
 Qed.
 
+(* ---- the time key follows the REAL index: aliases and jaeger-* indices (ES bulk) ---- *)
+Definition jaeger_index (index : bytes) : Prop := prefix_eqb p_jaeger index = true.
+
+Lemma index_ts_key_jaeger index : jaeger_index index -> index_ts_key index = k_jaeger_ts.
+Proof. unfold jaeger_index, index_ts_key. intros ->. reflexivity. Qed.
+
+Lemma lookup_jaeger_key_es_build t attrs :
+  lookup k_jaeger_ts (es_build t attrs) = lookup k_jaeger_ts attrs.
+Proof.
+  unfold es_build, ts_field. destruct t; cbn [app lookup]; try reflexivity;
+  change (bytes_eqb k_timestamp k_jaeger_ts) with false; reflexivity.
+Qed.
+
+(* a document sent under ANY name (index or alias) that resolves to a plain index is stored with
+   the time its `timestamp` carries, whatever else the document holds *)
+Theorem es_route_plain_time_num x al name u v attrs dec now0 tsNow clock :
+  plain_index (real_index al name) -> in_range_num u v = true ->
+  final_ts x (es_build (WNum (Z.of_N v)) attrs) (real_index al name) dec now0 tsNow clock = instant_ms u v.
+Proof. intros Hi Hr. apply es_time_num; assumption. Qed.
+
+(* a document sent under any name that resolves to a jaeger-* index is stored with the time its
+   `startTimeMillis` carries; a `timestamp` field of the document plays no role *)
+Theorem es_route_jaeger_time_num x al name u v t attrs dec now0 tsNow clock :
+  jaeger_index (real_index al name) -> lookup k_jaeger_ts attrs = Some (SInt (Z.of_N v)) ->
+  in_range_num u v = true ->
+  final_ts x (es_build t attrs) (real_index al name) dec now0 tsNow clock = instant_ms u v.
+Proof.
+  intros Hj Hl Hr. destruct (in_range_num_ok u v Hr) as [E Hnz].
+  rewrite (final_ts_num x _ (real_index al name) dec now0 tsNow clock (Z.of_N v)).
+  - exact E.
+  - rewrite (index_ts_key_jaeger _ Hj), lookup_jaeger_key_es_build. exact Hl.
+  - apply (in_range_num_int64 u v Hr).
+  - rewrite E. exact Hnz.
+Qed.
+
+(* without the key of its real index the document gets the arrival time *)
+Theorem es_route_jaeger_no_time x al name t attrs dec now0 tsNow clock :
+  jaeger_index (real_index al name) -> lookup k_jaeger_ts attrs = None ->
+  final_ts x (es_build t attrs) (real_index al name) dec now0 tsNow clock = tsNow.
+Proof.
+  intros Hj Hl. apply final_ts_no_key. rewrite (index_ts_key_jaeger _ Hj), lookup_jaeger_key_es_build. exact Hl.
+Qed.
+
+(* the requested name matters only through what it resolves to *)
+Theorem es_route_name_irrelevant x al n1 n2 e dec now0 tsNow clock :
+  real_index al n1 = real_index al n2 ->
+  final_ts x e (real_index al n1) dec now0 tsNow clock = final_ts x e (real_index al n2) dec now0 tsNow clock.
+Proof. intros ->. reflexivity. Qed.
+
+Example es_route_alias_resolves :
+  real_index [(s2b "spans-write", s2b "jaeger-span")] (s2b "spans-write") = s2b "jaeger-span"
+  /\ jaeger_index (real_index [(s2b "spans-write", s2b "jaeger-span")] (s2b "spans-write"))
+  /\ plain_index (s2b "spans-write").
+Proof. repeat split; vm_compute; reflexivity. Qed.
+
+
 (* ANY numeric spelling: fraction, exponent, or an integer literal beyond int64.  With t the
    value the float reader returns (uint64 of the nearest float64), the stored time is the
    instant of t's unit class -- it does not depend on the arrival time *)
